@@ -16,7 +16,7 @@ func init() {
 	register(&PropInfo{
 		ID:          "C12",
 		Title:       "Query parsing is total and preserves the boolean meaning of the query",
-		Explanation: "Totality, and one meaning clause. (1) Every explicit panic reachable (static calls inside package parser) from ParseSeqQL, ParseQuery and ParseAggregationFilter is discharged: enum-guarded sinks by a finite-domain reachability over the declared seq.TokenizerType / logicalKind constants that follows the switched value through parameters to every call site and to its producer (indexType); type-switch defaults by coverage of every concrete type stored into the interface; the remaining caller-checked sinks by a frozen per-site guard that is re-checked at every call site. (2) Every input-driven recursion cycle (SCC of the static call graph reachable from the entry points and the AST walkers used by search) needs a depth parameter that grows along the cycle and is compared with a constant before an error return. (3) Every call of the parse entry points in the repository propagates the returned error. (4) FINITE: the negation push-down (propagateNot) is recovered as a decision table by conditional constant propagation over its finite input partition (operator x left-negated x right-negated, operands symbolic) and every cell is compared with the truth table of the input; buildEvalTree reads NAnd in the child order propagateNot writes; both parsers wrap the root in NOT exactly under the returned flag. NOT decided: that the tree built by the recursive-descent parsers denotes the written expression (precedence, grouping), lexer loop termination, implicit runtime panics (index/slice bounds).",
+		Explanation: "Totality, and one meaning clause. (1) Every explicit panic reachable (static calls inside package parser) from ParseSeqQL, ParseQuery and ParseAggregationFilter is discharged: enum-guarded sinks by a finite-domain reachability over the declared seq.TokenizerType / logicalKind constants that follows the switched value through parameters to every call site and to its producer (indexType); type-switch defaults by coverage of every concrete type stored into the interface; the remaining caller-checked sinks by a frozen per-site guard that is re-checked at every call site. (2) Every input-driven recursion cycle (SCC of the static call graph reachable from the entry points and the AST walkers used by search) needs a depth parameter that grows along the cycle and is compared with a constant before an error return. (3) Every call of the parse entry points in the repository propagates the returned error. (4) FINITE: the negation push-down (propagateNot) is recovered as a decision table by conditional constant propagation over its finite input partition (operator x left-negated x right-negated, operands symbolic) and every cell is compared with the truth table of the input; buildEvalTree reads NAnd in the child order propagateNot writes; both parsers wrap the root in NOT exactly under the returned flag. (5) INDEX(const): constant-index reads of the input text are dominated by a length test. NOT decided: that the tree built by the recursive-descent parsers denotes the written expression (precedence, grouping), lexer loop termination, implicit runtime panics from variable indices and slice bounds (constant-index reads of the input text are decided, clause 5).",
 		Assumptions: []string{"values of the enum types are declared constants (no out-of-range conversions)", "recursion through interface or function values is not followed"},
 		Obs:         c12,
 	})
@@ -32,7 +32,7 @@ func parserScope(c *Ctx) []*ssa.Function {
 
 func c12() []*Ob {
 	return []*Ob{
-		{Prop: "C12", ID: "C12.1", Engine: "ENUM(panic)+DOM", Floor: 2,
+		{Prop: "C12", ID: "C12.1", Engine: "ENUM(panic)+DOM", Floor: 1,
 			Desc: "no explicit panic/fatal sink is reachable from ParseSeqQL / ParseQuery / ParseAggregationFilter for any input string and any mapping (every mapping type: keyword, text, path, exists, object, tags, nested, noop)",
 			Check: func(c *Ctx) {
 				scope := parserScope(c)
@@ -135,10 +135,43 @@ func c12() []*Ob {
 					}
 				}
 			}},
-		{Prop: "C12", ID: "C12.4", Engine: "FINITE(SCCP)", Floor: 9,
+		{Prop: "C12", ID: "C12.4", Engine: "FINITE(SCCP)", Floor: 7,
 			Desc:  "negation push-down keeps the meaning: for every cell of (operator in {AND, OR}) x (left negated) x (right negated), the operator, child order and returned negation flag that propagateNot leaves behind denote the same boolean function of the two operands as the input (LogicalNAnd(c0, c1) = NOT c0 AND c1, as buildEvalTree and node.NewNAnd read it); the NOT case flips the flag of its operand; both parsers wrap the root in a NOT node exactly when the flag is set",
 			Check: func(c *Ctx) { checkPropagateNot(c) }},
-		{Prop: "C12", ID: "C12.3", Engine: "ERRFLOW", Floor: 4,
+		{Prop: "C12", ID: "C12.5", Engine: "INDEX(const)", Floor: 1,
+			Desc: "no unguarded look at the input text: every element read text[k] with a constant k of a string, []byte or []rune in the functions reachable from the parse entry points is dominated by a test that the text is long enough (len(text) compared with a constant, text != \"\", or the loop condition that carries it) — an unterminated or truncated query must end in an error, not in an index-out-of-range panic that takes the store down",
+			Check: func(c *Ctx) {
+				scope := parserScope(c)
+				if scope == nil {
+					return
+				}
+				isText := func(t types.Type) bool {
+					switch u := t.Underlying().(type) {
+					case *types.Basic:
+						return u.Info()&types.IsString != 0
+					case *types.Slice:
+						if b, ok := u.Elem().Underlying().(*types.Basic); ok {
+							return b.Kind() == types.Uint8 || b.Kind() == types.Int32
+						}
+					}
+					return false
+				}
+				for _, fn := range scope {
+					occ := 0
+					for _, site := range ConstIndexSites(fn) {
+						if !isText(site.X.Type()) {
+							continue
+						}
+						occ++
+						if site.Proof != "" {
+							c.Site(site.Instr.Pos(), "%s reads text[%d] under a %s", FuncName(fn), site.K, site.Proof)
+						} else {
+							c.Violation(fmt.Sprintf("index:const:%s#%d", FuncName(fn), occ), site.Instr.Pos(), "%s reads element %d of the input text without a dominating test that the text is that long: a query that ends early (for example an unterminated quoted token whose closing quote is escaped) panics with index out of range inside the parser", FuncName(fn), site.K)
+						}
+					}
+				}
+			}},
+		{Prop: "C12", ID: "C12.3", Engine: "ERRFLOW", Floor: 2,
 			Desc: "every call of parser.ParseSeqQL / ParseQuery / ParseAggregationFilter in non-test repository code propagates the returned error (returned, wrapped, stored or fatal) — a parse error is never dropped or turned into a query",
 			Check: func(c *Ctx) {
 				m := Callee("parser.ParseSeqQL", "parser.ParseQuery", "parser.ParseAggregationFilter")
